@@ -12,7 +12,7 @@ RULE = ('the real Bus and 2-4 real DBusClientConnections (real handshake, Hello,
         'scheduler-owned links; one or several clients each export their own instance (same object path) of a generated object (1-3 methods, argument and return signatures and '
         'values from the C01 space, implementations returning values / tuples, raising, or returning Deferreds fired or '
         'failed later by the harness); the others obtain proxies by explicit interface object, by known interface name or '
-        'by introspection and issue 1-3 concurrent calls, each carrying a unique token. random: the bytes in flight are '
+        'by introspection and issue 1-3 concurrent calls (some with the optional timeout= deadline), each carrying a unique token. random: the bytes in flight are '
         'delivered under a Hypothesis-drawn schedule of (link/direction choice, chunk size) with byte-level splitting. '
         'dfs: for small scenarios (2 clients, <=2 concurrent calls, cross calls) EVERY message-granular delivery order is '
         'explored by systematic re-execution. oracle at quiescence: every call Deferred fired exactly once; the exporter '
@@ -94,6 +94,8 @@ def _setup(case):
         loc = {}
         exec(src, {}, loc)
         ns['dbus_' + m['name']] = loc['dbus_' + m['name']]
+    if case['nclients'] % 2:
+        ns['__len__'] = lambda self: 0          # the exported object may be false in a boolean context
     Obj = type('Calc', (O.DBusObject,), ns)
     for ei in _exporters(case):
         exp = conns[ei]
@@ -170,7 +172,10 @@ def _execute(case, choices=None):
             args = [tok] + (S.to_py_list(spec['in'], call['trees'], call.get('pres', [])) if spec['in'] else [])
             results[tok] = []
             try:
-                d = proxies[(ci, target)].callRemote(spec['name'], *args)
+                kw = {}
+                if call.get('timeout') is not None:
+                    kw['timeout'] = call['timeout']     # the optional deadline (virtual clock: it never expires here)
+                d = proxies[(ci, target)].callRemote(spec['name'], *args, **kw)
             except Exception as e:
                 out.append(Disc(exc_key(e, 'callRemote.raises'), exc_detail(e)))
                 return out, bfs
@@ -290,6 +295,8 @@ def classify(case):
     if len(case['calls']) >= 2:
         nt = True
         labels.append('concurrent_calls')
+    if any(c.get('timeout') for c in case['calls']):
+        labels.append('call_with_deadline')
     if 'introspect' in case['proxy_modes'] or 'introspect-by-name' in case['proxy_modes']:
         nt = True
         labels.append('introspected_proxy')
@@ -326,7 +333,8 @@ def scenario(draw, tier, dfs=False):
             oc['text'] = draw(st.sampled_from(['plain', 'unicode', 'empty']))
         calls.append({'caller': draw(st.integers(0, 3)), 'method': mi,
                       'trees': [draw(S.tree_for(t, 2)) for t in R.split_inner(spec['in'])],
-                      'pres': draw(S.presentation), 'outcome': oc})
+                      'pres': draw(S.presentation), 'outcome': oc,
+                      'timeout': draw(st.sampled_from([None, None, None, 30, 0]))})
     if dfs and len(calls) == 2 and draw(st.booleans()):
         # cross calls: both clients export, each calls the other
         calls[0]['target'], calls[1]['target'] = 0, 1
